@@ -138,6 +138,9 @@ def _cases(tier):
     for body in REEVAL:
         for F in ([], ["fix"], ["create", "fix"], ["update"], list(CATS)):
             cases.append({"reeval": body, "F": F})
+    for arg, ob in DEFAULTS:
+        for F in FS:
+            cases.append({"dflt": arg, "obs": ob, "F": F})
     for st, ob in STAR:
         for F in FS:
             cases.append({"star": st, "obs": ob, "F": F})
@@ -158,6 +161,16 @@ def build(tier, seed):
     return tasks
 
 
+DC5 = "@dataclass\nclass DC5:\n    p: tuple = (0, 0)\n    q: list = None\n    n: int = 0\n\n\n"
+DEFAULTS = [
+    ("DC5(p=(Is(0), 0), n=1)", "DC5(p=(0, 0), n=2)"),
+    ("DC5(p=(Is(0), 0), n=1)", "DC5(p=(0, 0), n=1)"),
+    ("DC5(p=(0, Is(0)), q=[Is(1)], n=1)", "DC5(p=(0, 0), q=[1], n=3)"),
+    ("DC5(q=Is(None), n=1)", "DC5(n=2)"),
+    ("DC5(p=(snapshot(0), 0), n=1)", "DC5(p=(0, 0), n=2)"),
+    ("[DC5(p=(Is(0), 0), n=1), 1]", "[DC5(n=2), 1]"),
+    ("DC5(p=(f\"{0}\", 0), n=1)", "DC5(p=('0', 0), n=2)"),
+]
 REEVAL = [
     "assert [i, 5] == snapshot([Is(i), 5])",
     "assert {'a': i, 'b': [5]} == snapshot({'a': Is(i), 'b': [5]})",
@@ -179,6 +192,8 @@ def _arg(c):
 
 
 def _site(i, c):
+    if "dflt" in c:
+        return "def test_%d():\n    _ok = %s == snapshot(%s)\n" % (i, c["obs"], c["dflt"])
     if "reeval" in c:
         return "def test_%d():\n    for i in (1, 2, 3, 2):\n        %s\n" % (i, c["reeval"].replace("; ", "\n        "))
     if "star" in c and c.get("never"):
@@ -227,6 +242,20 @@ def _is_subseq(a, b):
 def _analyze(c, i, before, after, rx, ctx):
     F = set(c["F"])
     btxt, atxt = before["arg_text"], after["arg_text"]
+    if "dflt" in c:
+        sb, sa = _segments(btxt), _segments(atxt)
+        # an argument equal to the field's default may be removed as a whole ("together with the element that holds them")
+        # when update / fix is approved; if the argument stays, the user-controlled text inside must be verbatim
+        ub = [x for x in sb if x[0] in ("is", "f")]
+        ua = [x for x in sa if x[0] in ("is", "f")]
+        gone = ("p=" in btxt and "p=" not in atxt) or ("q=" in btxt and "q=" not in atxt)
+        if not _is_subseq(ua, ub) or (len(ua) != len(ub) and not (gone and F & {"update", "fix"})):
+            return ("unmanaged-text-altered", "%s -> %s" % (btxt, atxt))
+        if len([x for x in sa if x[0] == "snap"]) > len([x for x in sb if x[0] == "snap"]):
+            return ("unmanaged-text-altered", "%s -> %s" % (btxt, atxt))
+        if "fix" in F and "n=2" in c["obs"] and "n=2" not in atxt.replace(" ", ""):
+            return ("managed-siblings-not-repaired", "%s -> %s" % (btxt, atxt))
+        return None
     if "reeval" in c:
         raised = str(ctx["r"].get("raised") or "")
         if raised:
@@ -297,7 +326,7 @@ def _analyze(c, i, before, after, rx, ctx):
 
 def _judge(cases):
     star = any("star" in c for c in cases)
-    hdr = DC3 + (STAR_PRE if star else "")
+    hdr = DC3 + DC5 + (STAR_PRE if star else "")
     return batch.one_file(cases, _site, lambda c: ["Is"], cases[0]["F"], _analyze, header=hdr)
 
 
@@ -307,5 +336,5 @@ def run_case(case):
 
 def run_task(task):
     return batch.run_batched(task["cases"], _judge,
-                             label=lambda c: "ok:star" if "star" in c else ("ok:reeval" if "reeval" in c else "ok:%s:%s" % (c["c"], c["o"][0])),
+                             label=lambda c: "ok:star" if "star" in c else ("ok:reeval" if "reeval" in c else "ok:defaults" if "dflt" in c else "ok:%s:%s" % (c["c"], c["o"][0])),
                              key=lambda c: repr(sorted(c.items())))
